@@ -268,6 +268,33 @@ func c09Structural(c *ctx, u *universe, b *tkBudget) {
 			}
 		}
 	}
+	// destination-side inputs written by hand whose RECIPIENT maps to the metachain, executed with the destination account
+	// present (Snd=false, Dst=true), sent by a user of the other shard and by the ESDT system contract: ESDTTransfer checks the
+	// recipient's shard on both sides and must refuse
+	pay := c09Payload(w, A, S, 1, 2)
+	for mi, meta := range [][]byte{u.MetaUser, u.SC} {
+		for _, caller := range [][]byte{u.U[2], u.SC} {
+			for _, ct := range []vmcommon.CallType{vmcommon.DirectCall, vmcommon.AsynchronousCall, vmcommon.AsynchronousCallBack, vmcommon.ESDTTransferAndExecute} {
+				for extra := 0; extra <= 1; extra++ {
+					for _, p := range []struct {
+						fn   string
+						args [][]byte
+					}{
+						{"ESDTTransfer", [][]byte{F, be(3)}},
+						{"ESDTNFTTransfer", [][]byte{S, be(1), be(2), pay}},
+						{"MultiESDTNFTTransfer", [][]byte{be(1), F, {0}, be(3)}},
+						{"MultiESDTNFTTransfer", [][]byte{be(2), S, be(1), pay, F, {0}, be(3)}},
+					} {
+						r := base.fork("structural/destination-side-metachain-recipient")
+						cs := &callSpec{Shard: 0, Fn: p.fn, Caller: caller, Rcpt: meta, Args: append(append([][]byte{}, p.args...), c09Extra(extra)...),
+							Value: big.NewInt(0), Gas: bigGas, CallType: ct, Snd: false, Dst: true, FailAt: -1}
+						sr := r.call(cs)
+						c.count(fmt.Sprintf("c09/structural/destination-side-metachain-recipient-%d/%s/%s", mi, p.fn, statusName(sr.Res.Status)))
+					}
+				}
+			}
+		}
+	}
 }
 
 func c09Tune(g *gen) {
@@ -290,7 +317,7 @@ func init() {
 		c.stateProj = "sp_balances" // the part of the state this property's theorems speak about
 		u := newUniverse()
 		proj := tkProj(true, true)
-		c.rep.Rule = "(1) sweep on clones of three 2-shard worlds (oracle answers payable / not payable / error for every destination): token kind {ESDTTransfer, ESDTNFTTransfer, multi fungible-only, multi NFT-only, multi mixed} x call type {direct, async, callback, transfer-and-execute} x argument count {minimum, +1, +2} x destination {user, contract} x side {sender side with the destination on the same shard; sender side towards the other shard followed by delivery of the real message (refund when refused); destination-side inputs written by hand with Snd=false, Dst=true, sent by a user and by the ESDT system contract}; a contract as sender; structural family: destination on the metachain (user address, ESDT system contract address), the sender itself, 31-byte, 33-byte and empty destination x call types x argument counts. " +
+		c.rep.Rule = "(1) sweep on clones of three 2-shard worlds (oracle answers payable / not payable / error for every destination): token kind {ESDTTransfer, ESDTNFTTransfer, multi fungible-only, multi NFT-only, multi mixed} x call type {direct, async, callback, transfer-and-execute} x argument count {minimum, +1, +2} x destination {user, contract} x side {sender side with the destination on the same shard; sender side towards the other shard followed by delivery of the real message (refund when refused); destination-side inputs written by hand with Snd=false, Dst=true, sent by a user and by the ESDT system contract}; a contract as sender; structural family: destination on the metachain (user address, ESDT system contract address), the sender itself, 31-byte, 33-byte and empty destination x call types x argument counts; destination-side inputs (Snd=false, Dst=true, by a user and by the system contract) whose recipient maps to the metachain, for all three functions. " +
 			"(2) random walks with a random oracle table (40% not payable, 20% error), weighted to transfers, deliveries and hostile calls. After EVERY executed transfer function the monitor compares the destination account's balances before/after with the oracle: an increase requires payable, or more arguments than the minimum (3n+2 / 3n+1 for the multi-transfer), or call type callback / transfer-and-execute, or caller = ESDT system contract; a success with an erroring oracle that had to be asked, with a metachain destination, with destination = sender or of another length (NFT, multi) is a failure. " +
 			"Every executed call is re-executed by the Coq model (projection: status, output transfers, complete post-state). distinct = distinct (world state, operation)."
 		c.tkBegin(proj)
@@ -300,7 +327,7 @@ func init() {
 			budget = &tkBudget{max: 5000}
 		}
 		c09Sweep(c, u, budget, quick)
-		c09Structural(c, u, &tkBudget{max: 150})
+		c09Structural(c, u, &tkBudget{max: 220, every: 2})
 		n, ops, prob, max := 8, 250, 2, 1000
 		if !quick {
 			n, ops, prob, max = 100, 600, 6, 10000
